@@ -20,3 +20,10 @@ void c12_peek_tar(sqfs_dir_iterator_t *it, int *state, unsigned long long *recor
 	}
 	if (n == 0) snprintf(sparse, cap, "-");
 }
+
+/* the stream the iterator reads from and whether tar_open_stream wrapped it into a decompressor */
+void c12_peek_tar_stream(sqfs_dir_iterator_t *it, sqfs_istream_t **stream, int *compressed)
+{
+	tar_iterator_t *tar = (tar_iterator_t *)it;
+	*stream = tar->stream; *compressed = tar->compressed ? 1 : 0;
+}
